@@ -663,7 +663,16 @@ class Interp:
             return [ew(lambda x: self.ops.unary(name, x), ins[0])]
         if name in _STRUCTURAL:
             return self.structural(eqn, ins)
+        if callable(eqn.params.get("impl")) and "num_consts" in eqn.params:
+            return self.initial_style(eqn, ins)
         return self.generic_uf(eqn, ins)
+
+    def initial_style(self, eqn, ins):
+        """GenJAX InitialStylePrimitive outside its interpreter: evaluates to its wrapped function (params['impl'])."""
+        impl, params = eqn.params["impl"], eqn.params
+        avals = [jax.ShapeDtypeStruct(v.aval.shape, v.aval.dtype) for v in eqn.invars]
+        cj = jax.make_jaxpr(lambda *a: impl(*a, **params))(*avals)
+        return self.eval_closed(cj, ins)
 
     # ---- generic UF fallback (sound for equivalences: same code => same symbol)
     def generic_uf(self, eqn, ins, tag=None):
